@@ -314,6 +314,7 @@ def params():
                                  f"{(serve_first, closed_under_lock, close_first)}, the witness scenarios on the real server "
                                  f"give {got}: {obs}")
     # the parameters read from known shapes must agree with their witness scenario on the real code as well
+    overrides = {}
     for name, value, case, read in (
             ("udp_restart_guarded", udp_guarded, [1, [0, 0, 0], [0, 9, 1]], lambda o: o[-1][0][0] == 1),
             ("standalone_shutdown_guarded", shutdown_guarded, [2, [0, 0, 0], [10, 0, 11]], lambda o: o[-1][0][0] == 1),
@@ -323,7 +324,16 @@ def params():
             continue                      # already behavioural
         o = _probe(case, name)
         if read(o) != value:
-            raise TranslateError(f"{name}: the source reads as {value}, the witness scenario {case} on the real code gives {o}")
+            if name == "nst_sets_up_in_finally":
+                raise TranslateError(f"{name}: the source reads as {value}, the witness scenario {case} on the real code gives {o}")
+            # a digest table only knows the shape of ONE function; the behaviour of the scenario also depends on the code
+            # around it: the real code decides, the model follows it (and the cases / known-findings entry then speak)
+            notes.append(f"{name}: the digest table says {value} for this shape, but the witness scenario {case} on the real "
+                         f"code gives {o}: behavioural value {read(o)} used")
+            overrides[name] = read(o)
+    udp_guarded = overrides.get("udp_restart_guarded", udp_guarded)
+    shutdown_guarded = overrides.get("standalone_shutdown_guarded", shutdown_guarded)
+    close_busy = overrides.get("standalone_close_propagates_busy", close_busy)
 
     def b(x):
         return "true" if x else "false"
@@ -350,7 +360,8 @@ L_SERVE, L_SHUTDOWN, L_CLOSE, L_CONNECT, L_DISCONNECT, L_OBSERVE, L_REL_FACTORY,
 L_PRE_SHUTDOWN, L_RESUME, L_NST_START = 10, 11, 12
 L_SERVE_P1, L_SERVE_P2, L_CLOSE_P2, L_REL_PAUSE = 13, 14, 15, 16
 L_FACTORY_FAIL, L_API_INSIDE, L_REL_QUIT = 17, 18, 19
-CALLS = (L_SERVE, L_SHUTDOWN, L_CLOSE, L_PRE_SHUTDOWN, L_SERVE_P1, L_SERVE_P2, L_CLOSE_P2)
+L_CLOSE_CANCELLED, L_SHUTDOWN_CANCELLED = 20, 21     # async worlds: the caller is cancelled at the call's first checkpoint
+CALLS = (L_SERVE, L_SHUTDOWN, L_CLOSE, L_PRE_SHUTDOWN, L_SERVE_P1, L_SERVE_P2, L_CLOSE_P2, L_CLOSE_CANCELLED, L_SHUTDOWN_CANCELLED)
 
 
 def _port_bound(kind, addr):
@@ -519,6 +530,7 @@ class _AsyncWorld:
         setattr(srv, attr, gated_factory)
 
         calls, clients, obs = [], [], []
+        cancelled_calls = set()
         addr = None
         try:
             for lab in labels:
@@ -528,6 +540,13 @@ class _AsyncWorld:
                     calls.append(asyncio.ensure_future(srv.shutdown()))
                 elif lab == L_CLOSE:
                     calls.append(asyncio.ensure_future(srv.server_close()))
+                elif lab in (L_CLOSE_CANCELLED, L_SHUTDOWN_CANCELLED):
+                    # the call runs up to its first checkpoint, then its caller is cancelled there (task.cancel())
+                    t = asyncio.ensure_future(srv.server_close() if lab == L_CLOSE_CANCELLED else srv.shutdown())
+                    await asyncio.sleep(0)
+                    t.cancel()
+                    cancelled_calls.add(len(calls))
+                    calls.append(t)
                 elif lab == L_CONNECT and kind == 0:
                     if srv.is_serving():
                         a = srv.get_addresses()[0]
@@ -571,11 +590,11 @@ class _AsyncWorld:
                 if gc:
                     gate_c.clear()
                 st = []
-                for c in calls:
+                for ci_, c in enumerate(calls):
                     if not c.done():
                         st.append(0)
                     elif c.cancelled():
-                        st.append(6)
+                        st.append(1 if ci_ in cancelled_calls else 6)     # cancelled by the harness: the call is over
                     else:
                         st.append(_status(c.exception(), True))
                 if srv.is_listening():
@@ -831,7 +850,7 @@ def _run_standalone(inp):
     teardown_gate = threading.Event()
     pause_gate = threading.Event()
     pause_labels = (L_SERVE_P1, L_SERVE_P2, L_CLOSE_P2)
-    if gate_teardown or any(lab in pause_labels for lab in labels):
+    if gate_teardown or L_PRE_SHUTDOWN in labels or any(lab in pause_labels for lab in labels):
         from easynetwork.lowlevel._lock import ForkSafeLock
         acquisitions = {}                 # thread name -> lock acquisitions so far, over both locks
 
@@ -840,6 +859,7 @@ def _run_standalone(inp):
                 self._lock = threading.RLock()
                 self._is_bootstrap = is_bootstrap
                 self._count = {}
+                self._depth = {}
 
             def acquire(self, *a, **kw):
                 t = threading.current_thread()
@@ -847,6 +867,8 @@ def _run_standalone(inp):
                 if f"-p{k}-" in t.name:
                     pause_gate.wait(GATE_WAIT)
                 acquisitions[t.name] = k
+                if self._is_bootstrap and t.name.startswith("c18-pshutdown"):
+                    self._depth[t.name] = self._depth.get(t.name, 0) + 1
                 if gate_teardown and self._is_bootstrap and t.name.startswith("c18-serve"):
                     self._count[t.name] = self._count.get(t.name, 0) + 1
                     if self._count[t.name] == 2:
@@ -854,7 +876,15 @@ def _run_standalone(inp):
                 return self._lock.acquire(*a, **kw)
 
             def release(self):
-                return self._lock.release()
+                r = self._lock.release()
+                # pre-emption point of shutdown() (label 10): right after it has released the bootstrap lock, i.e. before
+                # anything it does outside the lock (reading the event attribute, waiting for the event)
+                t = threading.current_thread()
+                if self._is_bootstrap and t.name.startswith("c18-pshutdown"):
+                    self._depth[t.name] = self._depth.get(t.name, 1) - 1
+                    if self._depth[t.name] == 0:
+                        resume.wait(GATE_WAIT)
+                return r
 
             def __enter__(self):
                 self.acquire()
@@ -1095,6 +1125,21 @@ def _cases(tier, rng, escalate):
         yield _mk(2, (0, 0, 0), seq, ["clients"])
     for seq in ([0, 9, 1], [0, 9, 2], [0, 9, 1, 0, 1], [0, 9, 2, 0]):
         yield _mk(3, (0, 0, 0), seq, ["clients"])
+    # cancellation of the asynchronous lifecycle calls at their first checkpoint (task.cancel() of the caller)
+    for kind in (0, 1):
+        busy = [L_CONNECT] if kind == 0 else [L_UDPQ]
+        for pre in ([], [L_SERVE], [L_SERVE] + busy, [L_SERVE, L_SHUTDOWN], [L_SERVE, L_CLOSE]):
+            for cancelled in (L_CLOSE_CANCELLED, L_SHUTDOWN_CANCELLED):
+                for post in ([], [L_OBSERVE], [L_SERVE], [L_CLOSE], [L_SHUTDOWN], [L_CLOSE, L_SERVE], [L_SERVE, L_SHUTDOWN],
+                             [cancelled], [L_CLOSE_CANCELLED, L_SERVE]):
+                    yield _mk(kind, (0, 0, 0), pre + [cancelled] + post, ["cancelled-call"])
+        for cancelled in (L_CLOSE_CANCELLED, L_SHUTDOWN_CANCELLED):
+            yield _mk(kind, (1, 0, 0), [L_SERVE, cancelled, L_REL_FACTORY], ["cancelled-call"])
+            yield _mk(kind, (0, 1, 0), [L_SERVE, cancelled, L_REL_INIT], ["cancelled-call"])
+            yield _mk(kind, (0, 1, 0), [L_SERVE, cancelled, L_REL_INIT, L_CLOSE], ["cancelled-call"])
+            if kind == 0:
+                yield _mk(kind, (0, 0, 1), [L_SERVE, L_CONNECT, cancelled, L_REL_CLIENT], ["cancelled-call"])
+                yield _mk(kind, (0, 0, 1), [L_SERVE, L_CONNECT, cancelled, L_SERVE, L_REL_CLIENT], ["cancelled-call"])
     # start-up window (close lock + bootstrap lock held until the portal exists): one call issued inside the window
     for kind in (2, 3):
         # (no server_close inside the window: once released it races with the asynchronous set-up of the new run --
@@ -1193,8 +1238,10 @@ def oracle(inp):
             call_kinds += [L_NST_START, L_SERVE]     # the start() call, then the serve_forever of the thread it started
         elif lab in (L_SERVE_P1, L_SERVE_P2):
             call_kinds.append(L_SERVE)               # a serve_forever call (held by the harness between two lock acquisitions)
-        elif lab == L_CLOSE_P2:
-            call_kinds.append(L_CLOSE)
+        elif lab in (L_CLOSE_P2, L_CLOSE_CANCELLED):
+            call_kinds.append(L_CLOSE)               # a cancelled server_close() is over: the same obligations hold afterwards
+        elif lab == L_SHUTDOWN_CANCELLED:
+            call_kinds.append(None)                  # a cancelled shutdown() promises nothing about the server's state
         elif lab in CALLS:
             call_kinds.append(lab)
     closed_ok_at = None          # index of the first observation after a server_close returned normally
@@ -1212,7 +1259,7 @@ def oracle(inp):
         for k, s in zip(kinds, st):
             if s in (5, 9):
                 what = {L_SERVE: "serve_forever", L_SHUTDOWN: "shutdown", L_CLOSE: "server_close", L_PRE_SHUTDOWN: "shutdown",
-                        L_NST_START: "NetworkServerThread.start"}[k]
+                        L_NST_START: "NetworkServerThread.start"}.get(k, "shutdown (caller cancelled)")
                 return (f"{what} ended with an undocumented exception (status {s}) "
                         f"[kind={kind} labels={labels[:step + 1]}]")
             if s == 6:
@@ -1281,6 +1328,18 @@ def oracle(inp):
             return f"is_serving() blocks although nothing is held back: the locks are deadlocked [kind={kind} labels={labels}]"
         if any(k == L_CLOSE and s == 0 for k, s in zip(kinds, st)):
             return f"server_close() still pending although nothing is held back [kind={kind} labels={labels}]"
+    # a closed server does not stay inside serve_forever(): once server_close() has returned normally and nothing is held
+    # back any more (every gate of the case released after the last call), no serve_forever call is still running
+    rel = (L_REL_FACTORY, L_REL_INIT, L_REL_CLIENT, L_REL_QUIT)
+    call_idx = [i for i, lab in enumerate(labels) if lab in CALLS or lab == L_NST_START]
+    # (a server with connected clients / a busy datagram handler legitimately keeps serving them after server_close())
+    if obs and call_idx and closed_ok_at is not None and not held and L_PRE_SHUTDOWN not in labels \
+            and L_CONNECT not in labels and L_UDPQ not in labels and L_API_INSIDE not in labels \
+            and all(rel[i] in labels[call_idx[-1] + 1:] for i, g in enumerate(gates) if g):
+        st = obs[-1][0]
+        if any(k == L_SERVE and s == 0 and i not in held_slots for i, (k, s) in enumerate(zip(call_kinds[:len(st)], st))):
+            return ("server_close() has returned but a serve_forever call is still running although nothing is held back: "
+                    f"a closed server that never stops [kind={kind} labels={labels}]")
     # no deadlock: with every gate released and a final shutdown, every call must have ended
     if all(g == 0 for g in gates) and labels and labels[-1] == L_SHUTDOWN:
         st = obs[-1][0]
